@@ -37,6 +37,9 @@ def write_input(c, stem, seed):
              ('DIRECTIO', c['directio']), ('PKTIDX', 0)]
     if na > 1:
         cards.insert(6, ('NANTS', na))
+    if c.get('sparse'):
+        # (sub-box) a foreign recording that carries only the cards the format needs: no observer / telescope / source / scan length
+        cards = [(k_, v_) for (k_, v_) in cards if k_ not in ('OBSERVER', 'TELESCOP', 'SRC_NAME', 'SCANLEN')]
     # pad the header with filler cards so that (cards + END) % 32 == 0 (aligned) or == 7 (unaligned)
     want = 0 if c['aligned'] else 7
     k = 0
@@ -170,7 +173,7 @@ def one_recording(c, nsub, req, stem_in, stem_out, in_blocks, bpf_in, ncards, bl
         for fn in guppi.list_files(stem_out):
             os.remove(fn)
         try:
-            be.record(output_file_stem=stem_out, header_dict={}, digitize=c['digitize'], load_template=False, verbose=False, **kw)
+            be.record(output_file_stem=stem_out, header_dict={}, digitize=c['digitize'], load_template=bool(c.get('template')), verbose=False, **kw)
         except Exception as e:
             V('record_raised', '%s recording#%d: %s: %s' % (tag, rec, type(e).__name__, e))
             return False
@@ -426,6 +429,14 @@ def run(ctx):
                 cases.append(dict(bits=bits, npol=1, nants=1, directio=0, aligned=False, lazy='default', window=window,
                                   layout=[2, 2], content='tone', digitize=digitize, T=4, nchans=4, start_chan=0,
                                   recordings=1, seed=ctx.seed))
+    # sub-box: sparse input headers (no OBSERVER / TELESCOP / SRC_NAME / SCANLEN), with and without the library's header template
+    for sparse in (True, False):
+        for template in (True, False):
+            if not sparse and not template:
+                continue
+            for directio in (0, 1):
+                cases.append(dict(bits=8, npol=2, nants=1, directio=directio, aligned=False, lazy=False, layout=[3, 2], content='tone',
+                                  digitize=True, T=10, nchans=4, start_chan=0, recordings=1, seed=ctx.seed, sparse=sparse, template=template))
     ctx.pmap(case_input, cases, chunk=1)
     return ctx.finish(
         rule='one case per input recording written by the independent GUPPI writer (bits x pols x antennas x DIRECTIO x header '
